@@ -59,6 +59,8 @@ def hv(v):
         return "string:%d:%s" % (c, p.encode().hex())
     if k == "bool":
         return "bool:%d:%d" % (c, 1 if p else 0)
+    if k in ("float32", "float64"):
+        return "%s:%d:%s" % (k, c, p)
     return "%s:%d:%d" % (k, c, p)
 
 
@@ -70,6 +72,13 @@ def parse_hv(s):
         return (k, int(c), p == "1")
     if k in BITS:
         return (k, int(c), int(p))
+    if k == "float64":               # modelled only when the value is an integer (VFlt z); -0 and the rest stay opaque text
+        try:
+            x = float(p)
+            if x.is_integer() and abs(x) < 1e300 and not (x == 0 and p.strip().startswith("-")):
+                return (k, int(c), int(x))
+        except ValueError:
+            pass
     return (k, int(c), p)            # floats / other: opaque text
 
 
@@ -79,6 +88,8 @@ def coq_val(v):
         return "(VStr %s)" % vf.vrunes(p)
     if k == "bool":
         return "(VBool %s)" % ("true" if p else "false")
+    if k == "float64":
+        return "(VFlt (%d))" % p
     return "(VInt %s (%d))" % (COQK[k], p)
 
 
@@ -87,11 +98,11 @@ def coq_vc(v):
 
 
 def coq_kind(k):
-    return "KBool" if k == "bool" else "KStr" if k == "string" else "(KI %s)" % COQK[k]
+    return "KBool" if k == "bool" else "KStr" if k == "string" else "KF64" if k == "float64" else "(KI %s)" % COQK[k]
 
 
 def modelled(v):
-    return v[0] in BITS or v[0] in ("bool", "string")
+    return v[0] in BITS or v[0] in ("bool", "string") or (v[0] == "float64" and isinstance(v[2], int))
 
 
 def coq_obs(o, with_const=False):
